@@ -117,6 +117,22 @@ FIRST_MISSED = {
     "C14o": "missed first: New Zealand, the one country the final round treats specially, was in no run type; it replaces the USA",
     "C15o": "missed first: the harness handed every call a fresh copy of the list; the caller's list is now compared afterwards",
     "C18p": "missed first: no run without initial stock; ARG `nw_no_stored_food` added",
+    # wave 9
+    "C02q": "closed after reading the summary: a 48-month run of a country with a harvest in the last two months (ARG) added",
+    "C02r": "the ceiling of the feed round set to the demand (as C01n): caught by C05 `CeilingIsWhatHerdsEat`",
+    "C03r": "closed after reading the summary: a world-aggregate run with an explicit threshold added",
+    "C06r": "missed first: nothing compared the simulated herds with the stock table; `EverySpeciesSimulated` (India's beef herd is the documented exception)",
+    "C08q": "an option-level slip (the expansion ratio reset by a helper): caught by C13 once `Doc` held the cropland expansion",
+    "C10q": "closed after reading the summary: conversions of series that are one month long",
+    "C10r": "closed after reading the summary: the generic extraction anchor uses a food whose LP variable is not in kcals",
+    "C12q": "closed after reading the summary: month-indexed series are rescaled in place on the copy of an instance solved before",
+    "C13r": "state kept on a re-used runner object: caught by C14 (the overriding run followed by other runs on one runner)",
+    "C14r": "missed first: only the last country of a by-country call was observed, and no two run types shared their options; the recorder now "
+            "asks for every table to be saved and compares the tables of the earlier country with those of its run alone (NZL runs with ARG's options)",
+    "C15r": "closed after reading the summary: the two Koreas in the un-stubbed aggregate",
+    "C16q": "missed first in the quick tier: BRN added to its countries (the thorough tier had it)",
+    "C16r": "missed first in the quick tier: SWT added to its countries (the thorough tier and C06 / C07 had it)",
+    "C18r": "missed first: nothing tied the final round's charge to what the adjustment returned; `AdjustedIsCharged`",
     "C18c": "caught from wave 1; a later encoding change turned its `inf` into a machinery failure for a while: a non-finite observation is now a violation",
 }
 
